@@ -5,7 +5,7 @@ import numpy as np
 import torch
 
 import pytorch_wavelets as pw
-from pytorch_wavelets import _verif
+from .hooks import _verif
 
 from . import tracecheck, dwtlib, hookmap
 from .common import seed
@@ -99,6 +99,11 @@ def judge(rep, events, a, b, rej, cfg, api, machine):
     r = [k for k in range(a, b) if k in rej]
     if not r:
         return True
+    if not any(events[k].get("ev") not in ("reset", "call", "ret") for k in range(a, b)):
+        # no hook event at all was recorded for this call (the hook calls are gone from that code path): nothing to validate
+        rep.drift.append("stage trace of %s at %s: the call produced no hook events (hooks removed?) - stage-level validation inconclusive" % (api, cfg))
+        rep.count("stage_traces_without_hook_events")
+        return False
     internal = [k for k in r if events[k].get("ev") != "ret"]
     e = events[r[0]]
     if internal:
